@@ -2809,21 +2809,24 @@ Definition ops_b : list (nat * op) :=
     (0, OLog (A 22) [] None); (0, OLog (A 23) [] None);
     (0, OAddDests [mk_dest 1 BNotReports e1; mk_dest 0 BNever e1]) ].
 
-Example buffered_replay_levels :
-  map (fun m => fget K_level m) (trace_of (run cfg0 ops_b init_state) 0) =
-  [ Some (VLevel [1%positive]); Some (VLevel [4%positive]); Some (VLevel [2%positive]);
-    Some (VLevel [5%positive]); Some (VLevel [3%positive]); Some (VLevel [6%positive]) ].
+Definition s_b : state := run cfg0 ops_b init_state.
+
+Lemma buffered_replay_places :
+  map place (trace_of s_b 0) =
+  [ mkplace 0 [1%positive]; mkplace 0 [4%positive]; mkplace 0 [2%positive];
+    mkplace 0 [5%positive]; mkplace 0 [3%positive]; mkplace 0 [6%positive] ].
 Proof. vm_compute. reflexivity. Qed.
 
-Theorem C02_buffered_replay_refuted :
-  ~ emission_ordered (trace_of (run cfg0 ops_b init_state) 0).
+Theorem C02_buffered_replay_refuted : ~ emission_ordered (trace_of s_b 0).
 Proof.
-  intros H.
-  assert (X : exists m0 m1 m2 rest,
-            trace_of (run cfg0 ops_b init_state) 0 = [m0] ++ m1 :: [] ++ m2 :: rest /\
-            place m1 = mkplace 0 ([] ++ [4%positive]) /\ place m2 = mkplace 0 ([] ++ [2%positive])).
-  { vm_compute. do 4 eexists. repeat split. }
-  destruct X as (m0 & m1 & m2 & rest & E & P1 & P2).
-  specialize (H _ _ _ _ _ _ _ _ _ E P1 P2). discriminate.
+  intros H. pose proof buffered_replay_places as D.
+  set (t := trace_of s_b 0) in *. clearbody t.
+  destruct t as [|m0 [|m1 [|m2 rest]]]; cbn [map] in D; try discriminate D.
+  injection D as A0 B0 A1 B1 A2 B2 R.
+  assert (P1 : place m1 = mkplace 0 ([] ++ [4%positive]))
+    by (unfold place, mkplace; cbn [app]; now rewrite A1, B1).
+  assert (P2 : place m2 = mkplace 0 ([] ++ [2%positive]))
+    by (unfold place, mkplace; cbn [app]; now rewrite A2, B2).
+  specialize (H [m0] m1 [] m2 rest 0 [] 4%positive 2%positive eq_refl P1 P2). discriminate H.
 Qed.
 End Buffered.
